@@ -1,35 +1,64 @@
 #!/usr/bin/env python3
-"""Apply every seeded change in /verif/seeded to /repo (git apply), run the check of its property, undo, and record the outcome
-in seeded/<name>/meta.json (detected_by / outcome).  Prints a markdown table."""
-import glob, json, os, re, subprocess, sys
+"""Run the check of its property against every seeded change in /verif/seeded, each applied to a *scratch copy* of
+/repo's working tree (never to /repo itself), several in parallel; record the outcome in seeded/<name>/meta.json
+(outcome / detected_by / replayed) and print a markdown table.   usage: seed_matrix.py [name-substring ...]"""
+import concurrent.futures
+import glob
+import json
+import os
+import re
+import shutil
+import subprocess
+import sys
+import tempfile
+
 HERE = os.path.dirname(os.path.dirname(os.path.abspath(__file__)))
-rows = []
-assert subprocess.run(['git', '-C', '/repo', 'diff', '--quiet']).returncode == 0, '/repo dirty'
-for d in sorted(glob.glob(os.path.join(HERE, 'seeded', '*'))):
+REPO = os.environ.get('VERIF_REPO', '/repo')
+
+
+def one(d):
     name = os.path.basename(d)
     meta = json.load(open(os.path.join(d, 'meta.json')))
     pid = meta['property']
-    if subprocess.run(['git', '-C', '/repo', 'apply', '--check', os.path.join(d, 'patch.diff')], stderr=subprocess.DEVNULL).returncode != 0:
-        meta['outcome'] = 'obsolete: patch no longer applies to /repo HEAD'
-        meta['detected_by'] = None
-    else:
-        subprocess.run(['git', '-C', '/repo', 'apply', os.path.join(d, 'patch.diff')], check=True)
-        try:
-            r = subprocess.run([os.path.join(HERE, 'check'), pid], cwd=HERE, stdout=subprocess.PIPE, stderr=subprocess.STDOUT, text=True,
-                               env=dict(os.environ, VERIF_EVIDENCE_DIR='/tmp/seed-evidence'))
-        finally:
-            subprocess.run(['git', '-C', '/repo', 'checkout', '--', '.'], check=True)
-        obl = re.findall(r'obligation: (.*)', r.stdout)
-        if r.returncode == 1:
-            meta['outcome'] = 'VIOLATION'
-            meta['detected_by'] = sorted(set(o.split(' [')[0] for o in obl))
-            meta['replayed'] = 'no-failing-input-found' not in ''.join(l for l in r.stdout.split('\n') if l.startswith('VIOLATION'))
-        elif r.returncode == 2:
-            meta['outcome'] = 'INCONCLUSIVE (exit 2): ' + '; '.join(re.findall(r'INCONCLUSIVE property=\S+ reason=(.{0,120})', r.stdout)[:1])
+    work = tempfile.mkdtemp(prefix='seedmx.%s.' % name, dir=os.environ.get('TMPDIR', '/var/tmp'))
+    try:
+        shutil.copytree(os.path.join(REPO, 'src'), os.path.join(work, 'src'))
+        for f in ('Cargo.toml', 'Cargo.lock'):
+            shutil.copy(os.path.join(REPO, f), os.path.join(work, f))
+        a = subprocess.run(['patch', '-p1', '-s', '--no-backup-if-mismatch', '-i', os.path.join(d, 'patch.diff')], cwd=work,
+                           stdout=subprocess.PIPE, stderr=subprocess.STDOUT, text=True)
+        if a.returncode != 0:
+            meta['outcome'] = 'obsolete: patch no longer applies to /repo HEAD'
             meta['detected_by'] = None
         else:
-            meta['outcome'] = 'not detected (exit 0)'
-            meta['detected_by'] = None
+            r = subprocess.run([os.path.join(HERE, 'check'), pid], cwd=HERE, stdout=subprocess.PIPE, stderr=subprocess.STDOUT, text=True,
+                               env=dict(os.environ, VERIF_REPO=work, VERIF_EVIDENCE_DIR=os.path.join(work, 'evidence'), VERIF_NO_SELFTEST='1'))
+            obl = re.findall(r'obligation: (.*)', r.stdout)
+            if r.returncode == 1:
+                meta['outcome'] = 'VIOLATION'
+                meta['detected_by'] = sorted(set(o.split(' [')[0] for o in obl))
+                vl = [l for l in r.stdout.split('\n') if l.startswith('VIOLATION')]
+                meta['replayed'] = any('no-failing-input-found' not in l for l in vl)
+            elif r.returncode == 2:
+                meta['outcome'] = 'INCONCLUSIVE (exit 2): ' + '; '.join(re.findall(r'INCONCLUSIVE property=\S+ reason=(.{0,120})', r.stdout)[:1])
+                meta['detected_by'] = None
+            else:
+                meta['outcome'] = 'not detected (exit %d)' % r.returncode
+                meta['detected_by'] = None
+    finally:
+        shutil.rmtree(work, ignore_errors=True)
     json.dump(meta, open(os.path.join(d, 'meta.json'), 'w'), indent=1)
-    rows.append((name, pid, meta['outcome'], meta.get('detected_by')))
-    print('| %s | %s | %s | %s |' % (name, pid, meta['outcome'][:90], ', '.join(meta.get('detected_by') or [])[:150]), flush=True)
+    return '| %s | %s | %s | %s |' % (name, pid, meta['outcome'][:90], ', '.join(meta.get('detected_by') or [])[:150])
+
+
+def main():
+    dirs = sorted(glob.glob(os.path.join(HERE, 'seeded', '*')))
+    if len(sys.argv) > 1:
+        dirs = [d for d in dirs if any(s in os.path.basename(d) for s in sys.argv[1:])]
+    with concurrent.futures.ThreadPoolExecutor(max_workers=3) as ex:
+        for line in ex.map(one, dirs):
+            print(line, flush=True)
+
+
+if __name__ == '__main__':
+    main()
